@@ -134,8 +134,9 @@ TransportSets == {{"grpc"}, {"rest"}, {"grpc", "rest"}}
 AdsOk == /\ apis \in {Apis, {OPS}, {IAM}, {LOC}, {OPS, LOC}}
          /\ rules \in {AllRules(1), AllRules(2), Row(1, 1, 0), Row(1, 2, 1), Row(2, 1, 2)}
          /\ transports \in {{"grpc"}, {"grpc", "rest"}}
-\* replay grid of the thorough tier: every rule set with both transports, single transports with a third of them
-ThoroughOk == transports = {"grpc", "rest"} \/ rules \in {AllRules(1), AllRules(2)} \cup OARows({0})
+\* replay grid of the thorough tier: every rule set with both transports, single transports with a third of them;
+ThoroughOk == /\ transports = {"grpc", "rest"} \/ rules \in {AllRules(1), AllRules(2)} \cup OARows({0})
+              /\ own => (IAM \in apis \/ apis = {})        \* own IAM RPCs matter where IAM mixins could be selected
 Init == /\ apis \in SUBSET Apis /\ rules \in RuleSets /\ own \in BOOLEAN /\ legacy \in BOOLEAN
         /\ ~(own /\ legacy)
         /\ transports \in TransportSets
